@@ -218,16 +218,20 @@ def run(ctx: Context) -> None:
                       coupled[0] if coupled else fi.node, construct=f"{fi.short}: guarded blocks with several optional attribute lookups: {len(coupled)}")
         sv = ctx.func(f"{BASE}.select_variables")
         sflow = ctx.flow(sv)
-        keep = [n for n in walk_no_nested(sv.node) if isinstance(n, ast.Assign) and norm_text(n.targets[0]) == 'keep_vars']
-        ok = bool(keep) and isinstance(keep[0].value, ast.List) and [norm_text(e) for e in keep[0].value.elts] == [
-            '*variables', '*self.get_all_geometry_names()', '*self.depth_coordinates']
-        ok = ok and any(norm_text(c) == 'keep_vars.append(self.time_coordinate)' for c in calls_in(sv))
-        ctx.check('R09.4', ok, "kept = requested variables + geometry inventory + depth coordinates + time coordinate", sv, keep[0] if keep else sv.node)
+        from ..pattern import Matcher
+        msv = Matcher(ctx, sv)
+        vp = sv.params[1]
+        keep = msv.stmt(f"$keep = [*{vp}, *self.get_all_geometry_names(), *self.depth_coordinates]")
+        ok = keep is not None and msv.stmt('$keep.append(self.time_coordinate)') is not None \
+            and len([c for c in method_calls(sv, 'append') if isinstance(c.func.value, ast.Name) and c.func.value.id == msv.name('keep')]) == 1 \
+            and not any(isinstance(c.func.value, ast.Name) and c.func.value.id == msv.name('keep') for c in calls_in(sv)
+                        if isinstance(c.func, ast.Attribute) and c.func.attr in ('remove', 'pop', 'clear'))
+        ctx.check('R09.4', ok, "kept = requested variables + geometry inventory + depth coordinates + time coordinate", sv, keep or sv.node)
         drops = [c for c in method_calls(sv, 'drop_vars')]
-        ok = (len(drops) == 1 and norm_text(drops[0].func.value) == 'self.dataset' and norm_text(drops[0].args[0]) == 'all_vars - keep_var_names'
-              and any(isinstance(n, ast.Assign) and norm_text(n) == 'all_vars = set(self.dataset.variables)' for n in sv.body)
+        ok = (len(drops) == 1 and keep is not None
+              and msv.match('self.dataset.drop_vars(set(self.dataset.variables) - {utils.data_array_to_name(self.dataset, $v) for $v in $keep})', drops[0], commit=False)
               and all(sflow.resolve(r.value) is drops[0] for r in sv.returns()))
-        ctx.check('R09.4', ok, "exactly the complement (over all variables) is dropped", sv, drops[0] if drops else sv.node)
+        ctx.check('R09.4', bool(ok), "exactly the complement (over all variables) is dropped", sv, drops[0] if drops else sv.node)
 
     # ------------------------------------------------------------------ R09.5
     with ctx.section('R09.5'):
@@ -236,6 +240,7 @@ def run(ctx: Context) -> None:
         ok = False
         if len(dsc) == 1:
             co = kwarg(dsc[0], 'coords')
+            co = ctx.flow(mc).resolve(co) if co is not None else None
             ok = isinstance(co, ast.Dict) and {norm_text(k): norm_text(v) for k, v in zip(co.keys, co.values)} == {
                 'topology.latitude_name': 'topology.latitude.copy()', 'topology.longitude_name': 'topology.longitude.copy()'}
         ctx.check('R09.5', ok, "the CF clip mask carries copies of latitude and longitude under their own names", mc, dsc[0] if dsc else mc.node)
